@@ -240,7 +240,8 @@ def family_chain(apt, bpt, wrapper, full):
 def family_let(pt, wrapper, full):
     """old def A; \\let C A (before or after the redefinition); redefine A; use C; use A"""
     ptext, n = PTS[pt]
-    old = define('def', A, pt, body_for('all', n, 'o'))
+    # the alias name already has a definition of its own (same call syntax), so shadowing and leaking are observable
+    old = define('def', A, pt, body_for('all', n, 'o')) + define('def', C, pt, body_for('dup', n, 'c'))
     for definer in ('def', 'gdef', 'csdef'):
         new = define(definer, A, pt, body_for('swap', n, 'n'))
         for letform in ('\\let\\zzC\\zzA', '\\let\\zzC=\\zzA', '\\expandafter\\let\\csname zzC\\endcsname\\zzA'):
@@ -248,10 +249,7 @@ def family_let(pt, wrapper, full):
                 for call in call_variants(pt, False):
                     seq = (letform + new) if when == 'before' else (new + letform)
                     prog = PRE + old + wrap(wrapper, seq + '\\zzC ' + call + ';\\zzA ' + call)
-                    if wrapper == 'top' or definer == 'gdef':
-                        prog += ':\\zzA ' + call
-                    else:
-                        prog += ':\\zzA ' + call
+                    prog += ':\\zzA ' + call + ';\\zzC ' + call
                     yield prog, n
 
 
